@@ -105,6 +105,31 @@ func DeclareURLParts(raw, scheme, hostLit, portPart, path, rawquery, fragment st
 	checkURL(raw, scheme, hostLit, path, rawquery, fragment, func(h string) bool { return h == hostLit+portPart })
 }
 
+// DeclareURLFolded tells the engine that raw PARSES to the given components although it is not their canonical
+// concatenation (user info before the host, a needlessly escaped path character, a trailing empty "#" or "?").
+// Natively the real parser is asked.
+func DeclareURLFolded(raw, scheme, hostLit, portPart, path, rawquery, fragment string) {
+	u, err := url.Parse(raw)
+	if err != nil {
+		fmt.Printf("ZZ-REPLAY-ERROR DeclareURLFolded(%q): net/url says %v\n", raw, err)
+		os.Exit(4)
+	}
+	switch {
+	case u.Scheme != strings.ToLower(scheme):
+		declFail(raw, "scheme", u.Scheme, strings.ToLower(scheme))
+	case u.Host != hostLit+portPart:
+		declFail(raw, "host", u.Host, hostLit+portPart)
+	case u.Path != path:
+		declFail(raw, "path", u.Path, path)
+	case u.RawQuery != rawquery:
+		declFail(raw, "rawquery", u.RawQuery, rawquery)
+	case u.Fragment != fragment:
+		declFail(raw, "fragment", u.Fragment, fragment)
+	case u.Opaque != "":
+		declFail(raw, "opaque", u.Opaque, "")
+	}
+}
+
 // IteStr is a non-forking string if-then-else.
 func IteStr(c bool, a, b string) string {
 	if c {
